@@ -828,7 +828,7 @@ func analyzeToSlice(p *load.Program, r *Roles, res *UnitResult, depth int) {
 	rv := eng.Pure("reflect.ValueOf", 0, v)
 	for _, rt := range e.Returns {
 		if rt.Panic || len(rt.Vals) != 1 {
-			col.Check("C15.R6", "ToSlice:result", false, rt.Pos, "ToSlice panics", nil)
+			col.Check("C15.R6,C06.R11", "ToSlice:result", false, rt.Pos, "ToSlice panics", nil)
 			continue
 		}
 		c := &eng.Ctx{E: e, St: rt.State}
@@ -836,20 +836,20 @@ func analyzeToSlice(p *load.Program, r *Roles, res *UnitResult, depth int) {
 		ms, _ := rt.State.MonByName(e, "copyloop").(copyLoopState)
 		isNil := c.IsNil(v)
 		if isNil == eng.TriUnknown {
-			col.Check("C15.R6", "ToSlice:nil", false, rt.Pos, "a path of ToSlice returns "+out.Pretty()+" without having established whether the argument is nil (nil must become an empty slice, not a one-element slice)", nil)
+			col.Check("C15.R6,C06.R11", "ToSlice:nil", false, rt.Pos, "a path of ToSlice returns "+out.Pretty()+" without having established whether the argument is nil (nil must become an empty slice, not a one-element slice)", nil)
 			continue
 		}
 		switch {
 		case isNil == eng.TriTrue:
 			ok := e.LenTerm(rt.State, out) == eng.ConstInt(0) && c.IsNil(out) == eng.TriFalse
-			col.Check("C15.R6", "ToSlice:nil", ok, rt.Pos, "ToSlice(nil) must be an empty, non-nil slice, got "+out.Pretty(), nil)
+			col.Check("C15.R6,C06.R11", "ToSlice:nil", ok, rt.Pos, "ToSlice(nil) must be an empty, non-nil slice, got "+out.Pretty(), nil)
 		case c.Eval(eng.TAOk(v, types.NewSlice(anyT))) == eng.TriTrue:
-			col.Check("C15.R6", "ToSlice:[]any", out == eng.TA(v, types.NewSlice(anyT)), rt.Pos, "ToSlice([]any) must return the slice itself, got "+out.Pretty(), nil)
+			col.Check("C15.R6,C06.R11", "ToSlice:[]any", out == eng.TA(v, types.NewSlice(anyT)), rt.Pos, "ToSlice([]any) must return the slice itself, got "+out.Pretty(), nil)
 		case out.K == eng.KMake && ms.base == nil && c.Eval(eng.Bin("<", eng.ConstInt(0), e.LenTerm(rt.State, out))) == eng.TriFalse:
 			// empty source: nothing to copy; the result must still be sized by the source
 			l := e.LenTerm(rt.State, out)
 			fromSrc := (l.K == eng.KLen && l.A[0].K == eng.KTA && l.A[0].A[0] == v) || l == eng.Pure("(reflect.Value).Len", 0, rv)
-			col.Check("C15.R6", "ToSlice:copy", fromSrc, rt.Pos, "the copy is sized by "+l.Pretty()+", not by the source", nil)
+			col.Check("C15.R6,C06.R11", "ToSlice:copy", fromSrc, rt.Pos, "the copy is sized by "+l.Pretty()+", not by the source", nil)
 		case out.K == eng.KMake:
 			// a copy: must be index preserving and complete
 			ok := ms.base == out && ms.bad == "" && ms.done && ms.srcOK
@@ -861,15 +861,15 @@ func analyzeToSlice(p *load.Program, r *Roles, res *UnitResult, depth int) {
 				why = "the returned slice is not the one that was filled"
 			}
 			// the source must be the argument: asserted slice, or its reflect.Value under Kind()==Slice
-			col.Check("C15.R6", "ToSlice:copy", ok, rt.Pos, "ToSlice must copy every element to the same index: "+why, nil)
+			col.Check("C15.R6,C06.R11", "ToSlice:copy", ok, rt.Pos, "ToSlice must copy every element to the same index: "+why, nil)
 			if ms.viaReflect {
-				col.Check("C15.R6", "ToSlice:copy", kindIn(c, rv, kSlice), rt.Pos, "reflection copy taken without establishing Kind()==Slice", nil)
+				col.Check("C15.R6,C06.R11", "ToSlice:copy", kindIn(c, rv, kSlice), rt.Pos, "reflection copy taken without establishing Kind()==Slice", nil)
 			}
 		default:
 			// one-element slice holding v; only for non-slices
 			el := e.SliceElems(rt.State, out)
 			ok := len(el) == 1 && el[0] == v && c.Eval(eng.Bin("==", kindTerm(rv), eng.ConstInt(kSlice))) == eng.TriFalse
-			col.Check("C15.R6", "ToSlice:single", ok, rt.Pos, "a non-slice value must become a one-element slice holding it (and only non-slices may), got "+out.Pretty(), nil)
+			col.Check("C15.R6,C06.R11", "ToSlice:single", ok, rt.Pos, "a non-slice value must become a one-element slice holding it (and only non-slices may), got "+out.Pretty(), nil)
 		}
 	}
 }
